@@ -247,43 +247,50 @@ Proof.
     + intros (q & e & f & _ & Hch & Hf & Ho). exists q, e, f. auto.
 Qed.
 
-(* non-vacuity: depth three, aliases at two levels, a condition resolved by the alias-level
-   chart's own defaults, one chain disabled at its second link *)
-Lemma enabled_tree_example :
-  let leaf := Chart "leaf" "1.0.0" [("z", VNum 1)] None [] None ["templates/p.yaml"] [] in
-  let gca := Chart "gca" "1.0.0" [("l1", VMap [("on", VBool true)])] None [leaf]
-               (Some [mkDep "leaf" "*" "l1.on" [] "l1" false []]) ["templates/p.yaml"] [] in
-  let suba := Chart "suba" "1.0.0" [] None [gca]
-               (Some [mkDep "gca" "*" "g1.enabled" ["t1"] "g1" false []]) ["templates/p.yaml"] [] in
-  let top := Chart "top" "1.0.0" [] None [suba]
-               (Some [mkDep "suba" "*" "" [] "a1" false []; mkDep "suba" "*" "" [] "a2" false []]) [] [] in
-  let v := [("a2", VMap [("g1", VMap [("enabled", VBool false)])]); ("tags", VMap [("t1", VBool true)])] in
-  match process_dependencies (fun _ _ => true) top v with
-  | Ok c' => has_path c' ["a1"; "g1"; "l1"] /\ ~ has_path c' ["a2"; "g1"] /\ has_path c' ["a2"]
-             /\ enabled_path (fun _ _ => true) top v "" ["a1"; "g1"; "l1"]
-  | Err _ => False
+Lemma has_path_b_spec : forall q c, has_path_b c q = true <-> has_path c q.
+Proof.
+  induction q as [|n q IH]; intros c.
+  { split; [intros _; exact I|intros _; reflexivity]. }
+  change (has_path_b c (n :: q)) with (existsb (fun d => String.eqb (cname d) n && has_path_b d q) (cdeps c)).
+  cbn [has_path]. rewrite existsb_exists. split.
+  - intros (d & Hd & E). apply andb_prop in E as [E1 E2]. apply String.eqb_eq in E1. apply IH in E2. eauto.
+  - intros (d & Hd & Hn & Hp). exists d. split; [exact Hd|]. apply andb_true_intro.
+    split; [now apply String.eqb_eq|now apply IH].
+Qed.
+
+(* the rule decided by running the model: [enabled_path] is decidable through the theorem *)
+Lemma enabled_path_decide : forall compat c v q,
+  match process_dependencies compat c v with
+  | Ok c' => if has_path_b c' q then enabled_path compat c v "" q else ~ enabled_path compat c v "" q
+  | Err _ => True
   end.
 Proof.
-  cbv zeta.
-  destruct (process_dependencies (fun _ _ => true) _ _) as [c'|] eqn:E; [|vm_compute in E; discriminate].
-  pose proof (process_dependencies_tree _ _ _ _ E) as Ht.
-  assert (Hc : c' = match process_dependencies (fun _ _ => true)
-                      (Chart "top" "1.0.0" [] None
-                         [Chart "suba" "1.0.0" [] None
-                            [Chart "gca" "1.0.0" [("l1", VMap [("on", VBool true)])] None
-                               [Chart "leaf" "1.0.0" [("z", VNum 1)] None [] None ["templates/p.yaml"] []]
-                               (Some [mkDep "leaf" "*" "l1.on" [] "l1" false []]) ["templates/p.yaml"] []]
-                            (Some [mkDep "gca" "*" "g1.enabled" ["t1"] "g1" false []]) ["templates/p.yaml"] []]
-                         (Some [mkDep "suba" "*" "" [] "a1" false []; mkDep "suba" "*" "" [] "a2" false []]) [] [])
-                      [("a2", VMap [("g1", VMap [("enabled", VBool false)])]); ("tags", VMap [("t1", VBool true)])]
-                    with Ok x => x | Err _ => c' end) by (rewrite E; reflexivity).
-  vm_compute in Hc.
-  assert (H1 : has_path c' ["a1"; "g1"; "l1"]).
-  { subst c'. simpl. eexists. split; [left; reflexivity|]. split; [reflexivity|].
-    eexists. split; [left; reflexivity|]. split; [reflexivity|].
-    eexists. split; [left; reflexivity|]. split; [reflexivity|exact I]. }
-  split; [exact H1|]. split; [|split].
-  - subst c'. simpl. intros (d & [<-|[<-|[]]] & Hn & d2 & Hd2 & _); simpl in *; try discriminate. contradiction.
-  - subst c'. simpl. eexists. split; [right; left; reflexivity|]. split; [reflexivity|exact I].
-  - now apply Ht.
+  intros compat c v q. destruct (process_dependencies compat c v) as [c'|] eqn:E; [|exact I].
+  pose proof (process_dependencies_tree compat c v c' E q) as Ht.
+  destruct (has_path_b c' q) eqn:Eb.
+  - apply Ht. now apply has_path_b_spec.
+  - intros H. apply Ht in H. apply has_path_b_spec in H. congruence.
+Qed.
+
+(* non-vacuity: depth three, aliases at two levels, a condition resolved by the alias-level
+   chart's own defaults, one chain disabled at its second link *)
+Definition ex_leaf := Chart "leaf" "1.0.0" [("z", VNum 1)] None [] None ["templates/p.yaml"] [].
+Definition ex_gca := Chart "gca" "1.0.0" [("l1", VMap [("on", VBool true)])] None [ex_leaf]
+                       (Some [mkDep "leaf" "*" "l1.on" [] "l1" false []]) ["templates/p.yaml"] [].
+Definition ex_suba := Chart "suba" "1.0.0" [] None [ex_gca]
+                        (Some [mkDep "gca" "*" "g1.enabled" ["t1"] "g1" false []]) ["templates/p.yaml"] [].
+Definition ex_top := Chart "top" "1.0.0" [] None [ex_suba]
+                       (Some [mkDep "suba" "*" "" [] "a1" false []; mkDep "suba" "*" "" [] "a2" false []]) [] [].
+Definition ex_user : vmap :=
+  [("a2", VMap [("g1", VMap [("enabled", VBool false)])]); ("tags", VMap [("t1", VBool true)])].
+
+Lemma enabled_tree_example :
+  enabled_path (fun _ _ => true) ex_top ex_user "" ["a1"; "g1"; "l1"]
+  /\ enabled_path (fun _ _ => true) ex_top ex_user "" ["a2"]
+  /\ ~ enabled_path (fun _ _ => true) ex_top ex_user "" ["a2"; "g1"].
+Proof.
+  split; [|split].
+  - exact (enabled_path_decide (fun _ _ => true) ex_top ex_user ["a1"; "g1"; "l1"]).
+  - exact (enabled_path_decide (fun _ _ => true) ex_top ex_user ["a2"]).
+  - exact (enabled_path_decide (fun _ _ => true) ex_top ex_user ["a2"; "g1"]).
 Qed.
